@@ -10,7 +10,7 @@ META = dict(
     engines='rapidcheck + libFuzzer',
     rule='rapidcheck (deterministic component, harness/props/C04.cpp): grammatical texts with corner literals (indices 0 / 32768 / 70000, integers '
          'beyond 32 and 64 bits), texts damaged by truncation / deletion / transposition / spliced stray tokens, nesting up to depth 2000 in eight '
-         'shapes, all through the same oracle as the fuzz targets. libFuzzer (coverage-guided, ASan+UBSan, asserts on) over four in-process targets with the oracle inside: fz_expr (raw bytes as expression '
+         'shapes, calls (also nested) of term / predicate functions whose inlined bodies fail at run time (positions of run-time errors raised inside an inlined body), all through the same oracle as the fuzz targets. libFuzzer (coverage-guided, ASan+UBSan, asserts on) over four in-process targets with the oracle inside: fz_expr (raw bytes as expression '
          'text, byte 0/1 choose syntax hint MATH/ASCII/auto, schema context, alias and constituent kind), fz_tokens (bytes -> indices into a '
          'vocabulary of every token of both syntaxes, identifiers of every kind, huge literals), fz_json (raw bytes or a schema document assembled '
          'from pools of valid/colliding/ill-formed identifiers, aliases, kinds, definitions, reference texts), fz_ref (reference text; shared with '
